@@ -387,4 +387,15 @@ Section MgrP.
       - inversion Ha; subst. eexists. split; [eapply update_nth; exact Hn|]. rewrite Hm. split; reflexivity. }
     destruct Hx as (st' & Hn' & Hc & Hmm). exists st'. split; [eapply nth_error_In; exact Hn'|]. auto.
   Qed.
+
+  (* `molecule_correspondence[name].end = None`: from then on nothing is written for that species, whatever map
+     object it still holds *)
+  Theorem end_removed_thm sps i sps' m :
+    remove_end sps i = Ok sps' -> in_species m = i -> sel sps' m = false /\ mol_atoms mapmol sps' m = None.
+  Proof.
+    intros Hr Hi. assert (Hs : sel sps' m = false).
+    { unfold remove_end in Hr. destruct (nth_error sps i) as [st|] eqn:Hn; [|discriminate].
+      inversion Hr; subst. unfold sel. rewrite (update_nth _ _ _ _ Hn). reflexivity. }
+    split; [exact Hs|apply mol_atoms_none; exact Hs].
+  Qed.
 End MgrP.
